@@ -2,13 +2,14 @@
 # usage: mut_test.sh Cxx patch.diff [tier]   - runs the check against a scratch worktree with the patch applied
 set -u
 pid=$1; patch=$2; tier=${3:-quick}
-wt=/tmp/mut
+wt=${MUT_WT:-/tmp/mut}
+bd=/verif/build/mutrun_$(basename $wt)
 git -C /repo worktree add -q --force $wt HEAD 2>/dev/null
 git -C $wt checkout -q --detach $(git -C /repo rev-parse HEAD) 2>/dev/null
 git -C $wt checkout -q -- . ; git -C $wt clean -fdq
 git -C $wt apply "$patch" || { echo "PATCH DOES NOT APPLY"; exit 2; }
 cd /verif
-out=$(VERIF_EVIDENCE_DIR=/verif/build/mut/evidence VERIF_REPO=$wt ./check $pid --tier $tier 2>/dev/null | grep -a "VIOLATION\|KNOWN-FINDING\|obligations=")
+out=$(VERIF_BUILD_DIR=$bd VERIF_EVIDENCE_DIR=/verif/build/mut/evidence VERIF_REPO=$wt ./check $pid --tier $tier 2>/dev/null | grep -a "VIOLATION\|KNOWN-FINDING\|obligations=")
 echo "$out"
-mkdir -p /verif/build/mut; cp -f /verif/build/$pid/replay_0.json /verif/build/mut/${pid}_$(basename $patch .diff).replay.json 2>/dev/null
+mkdir -p /verif/build/mut; cp -f $bd/$pid/replay_0.json /verif/build/mut/${pid}_$(basename $patch .diff).replay.json 2>/dev/null
 git -C $wt checkout -q -- .
